@@ -17,25 +17,41 @@ MANIFEST = dict(
         "potrf_correct (returns 0 => L L^T = A on the stored triangle, other triangle untouched), potrf_upper_correct, potrf_info_spec "
         "(returns k+1 => first k pivots positive, Schur pivot k <= 0); getrf_correct (no exception => P A = L U for the recorded "
         "transposition sequence); solve_eq_of_factorisation and its instance solve_spd_correct (solve(A,b,symm_pos_def) returns x with "
-        "A x = b), solve_spd_unique, solve_lu_correct (solve(A,b,indefinite_full_rank,left) returns x with A x = b); inv_prod_is_solve / inv_prod_is_solve_spd (explicit inverse times b = the solve call). The square "
-        "root is a parameter r required to be exact on the pivots that occur (SqrtSpec). The model is tied to remora's default kernels "
+        "A x = b), solve_spd_unique, solve_lu_correct (solve(A,b,indefinite_full_rank,left) returns x with A x = b), solve_lu_right_correct and solve_spd_right_correct (the right-sided vector solves return x with x A = b); inv_prod_is_solve / inv_prod_is_solve_spd (explicit inverse times b = the solve call); "
+        "cholUpdate_correct (rank-one update of a Cholesky factor, model updStep/cholUpdate written statement by statement after cholesky_decomposition::update: "
+        "for every size, every lower factor with non-zero diagonal, every update vector incl. zero components anywhere, every beta != 0 and alpha with an exact root: "
+        "no exception => L' L'^T = alpha L L^T + beta v v^T) and cholUpdate_scale_correct (beta = 0); the expression rewrites of solve.hpp: row_of_left_solve / "
+        "lazy_row_left_trsm (row(solve(A,B,left),i) = B^T solve(A,e_i,right)), row_of_left_solve_wrong_side_witness (the side matters), prod_of_right_solve, prod_of_left_trsm. The square "
+        "root is a parameter r required to be exact on the values that occur (SqrtSpec; hroot for the update). The model is tied to remora's default kernels "
         "by an exact correspondence (driver drv_c02 in Rat vs C++ doubles printed exactly) on systems built from integer factors with "
         "power-of-two diagonals, sizes 1..70 across the block sizes 4/16/20/32/64, both orientations, left/right, vector/matrix "
-        "right-hand sides, all tags, rank deficiencies 0..n for pstrf: whenever FE_INEXACT stays clear the C++ result must equal the "
+        "right-hand sides (incl. zero / sparse ones), all tags, rank deficiencies 0..n for pstrf: whenever FE_INEXACT stays clear the C++ result must equal the "
         "model's; otherwise, and for the OpenBLAS-backed build (-DREMORA_USE_CBLAS via Shark.h), an in-harness residual oracle in long "
-        "double (|A x - b| <= 1e-9 (|A||x|+|b|), L L^T, P A = L U, P^T A P = L L^T, Q D Q^T, Q^T Q = I, normal equations) decides."),
-  note=TRUST + "PARTIAL. Proved only on the model: everything listed in `text`. potrf_strict_correct_partial needs 'no pivot is exactly zero' "
-       "(the unrepaired (row_major,upper) kernel accepts a zero pivot: finding C02-potrf-zero-pivot-accepted). NOT theorems, exercised by the "
+        "double (|A x - b| <= 1e-9 (|A||x|+|b|), L L^T, P A = L U, P^T A P = L L^T, Q D Q^T, Q^T Q = I, normal equations; NaN anywhere fails) decides. "
+        "Exercised on every run (quick tier too): every way the solve expression is written and consumed -- solve(), inv(A)%B / B%inv(A), noalias(x) += ... "
+        "(plus_assign_to), the explicit inverse evaluated as a matrix (matrix_inverse::assign_to / plus_assign_to, then a plain product), operands that are expressions (trans(At), trans(Bt), subrange), and the lazily consumed matrix solves row(expr,i), expr % e_k, expr % I "
+        "(matrix_row_optimizer / matrix_vector_prod_optimizer) -- for each of the 7 direct system tags x left/right (plus conjugate gradient), all compared with the one model X; "
+        "decomposition objects used directly and re-used (one cholesky / LU / semi-definite / eigen decomposition serving 2..5 solves of mixed side and rhs kind, "
+        "decompose() on a used object; compute_inverse_factor of the semi-definite solver, modelled (semiInverseFactor) and compared exactly, Moore-Penrose oracle A A^+ A = A); pivoted LU with ties in the pivot search; sequences of 1..5 rank-one updates on one cholesky_decomposition followed by a solve through it, update vectors drawn from the "
+        "classes dense / leading zeros / unit vector / trailing zeros / interior zeros / zero vector / scaled factor column / exactly singular result / indefinite "
+        "downdate (the last two must throw) x alpha = 1 / alpha != 1, exact and float; symmetric eigenproblems incl. repeated eigenvalues, diagonal, zero, identity, "
+        "rank-one and tridiagonal matrices."),
+  note=TRUST + "PARTIAL. Proved only on the model: everything listed in `text` as theorem. potrf_strict_correct_partial needs 'no pivot is exactly zero' "
+       "(the unrepaired (row_major,upper) kernel accepts a zero pivot: finding C02-potrf-zero-pivot-accepted, fixed in /repo). NOT theorems, exercised by the "
        "correspondence / residual oracle only: pivoted Cholesky pstrf and the semi-definite solver incl. the least-squares clause (modelled and "
-       "compared exactly, nothing proved), the right-hand-side / matrix-rhs forms of the LU- and Cholesky-based solves (left vector forms are proved), "
-       "rank-one Cholesky update, conjugate gradient, symmetric eigendecomposition (oracle only, no model), the blocked recursions "
+       "compared exactly, nothing proved), the matrix-rhs forms of the LU- and Cholesky-based solves (the vector forms, left and right, are proved; the model applies them column by column), "
+       "the rewrites row/prod for the non-triangular tags (the general lemmas row_of_left_solve / prod_of_right_solve take the defining equations as hypotheses), "
+       "that update() throws exactly when the updated matrix is not positive definite (INDEPENDENT ORACLE in the harness: long-double Cholesky of the separately accumulated target, undecided within 1e-6 of singular), "
+       "conjugate gradient, symmetric eigendecomposition (INDEPENDENT ORACLE only, no model), the blocked recursions "
        "(modelled as the unblocked loops; equality in exact arithmetic follows from trsv_unique for trsm and is otherwise established by the "
        "exact correspondence across the block boundaries), floating-point backward-error bounds ('residual at rounding level' is measured, not proved). "
-       "The model describes the tree with findings_proposed/C02.patch applied (pstrf stops at pivot <= epsilon; both potrf kernels reject pivot <= 0; "
-       "potrf return code is global): on the unpatched tree the check reports C02-pstrf-zero-matrix, C02-potrf-zero-pivot-accepted, "
-       "C02-potrf-info-relative-to-block.",
-  technique="Lean 4 proofs (course-of-values recurrences, elimination invariants by induction over the steps) + exact-mode differential correspondence with the C++ (ASan/UBSan, FE_INEXACT) + residual oracle",
-  design="§6 C02")
+       "The forms that go through the explicit inverse (row(expr,i), evaluated inv(A)) are only forward stable; they are generated on well-conditioned systems "
+       "(dominant power-of-two diagonal / float systems with bounded condition) so that the 1e-9 residual bound is sound. trans(solve(..)), column(solve(..),i), v % solve(..), row(inv(A),i) "
+       "do not compile in the pinned tree (findings_proposed/C02.md) and are not exercised there; a syntax-only compile probe per tree (trans_forms_level) switches the forms t/c/l (trans(solve), column(solve,k), e_i % solve) on "
+       "as soon as the transpose rewrite instantiates (evidence field transposed_solve_forms says which case applied). "
+       "Open known finding C02-cg-zero-rhs-nan (F-C02-4): conjugate gradient with a zero vector right-hand side returns NaN; the check prints KNOWN-FINDING for exactly that input class.",
+  technique="Lean 4 proofs (course-of-values recurrences, elimination invariants by induction over the steps, loop invariant of the rank-one update) + exact-mode differential correspondence with the C++ (ASan/UBSan, FE_INEXACT) + independent residual oracles",
+  design="§6 C02, §14 C02")
 FINISH = dict(level="proof",
               rule="one case = one kernel / decomposition / solve call on a generated system; exact cases are built from integer "
                    "factors with power-of-two diagonals (every sqrt and division exact); a case is non-trivial if n >= 2; "
@@ -120,6 +136,22 @@ def tri_part(A, upper, unit):
     return [[(1 if unit else A[i][j]) if i == j else (A[i][j] if (j > i) == upper else 0) for j in range(n)] for i in range(n)]
 
 
+def sparse_vec(r, n):
+    k = r.below(4)
+    v = [0] * n
+    if n == 0 or k == 0:
+        return v
+    if k == 1:
+        v[r.below(n)] = r.choice([-4, -1, 1, 2, 8])
+    elif k == 2:
+        z = r.below(n)
+        v = [0] * z + [r.range(-5, 5) for _ in range(n - z)]
+    else:
+        z = r.below(n)
+        v = [r.range(-5, 5) for _ in range(n - z)] + [0] * z
+    return v
+
+
 def gen_trsv(r, n, tol=False):
     upper, unit, left = r.chance(1, 2), r.chance(1, 3), r.chance(1, 2)
     oa = r.choice("rc")
@@ -127,10 +159,13 @@ def gen_trsv(r, n, tol=False):
     A = gen_tri_matrix(r, n, upper, unit, singular)
     T = tri_part(A, upper, unit)
     x0 = [r.range(-4, 4) for _ in range(n)]
-    if r.chance(3, 4):
+    mode = r.below(8)
+    if mode < 5:
         b = mv(T if left else tr(T), x0)
-    else:
+    elif mode == 5:
         b = [r.range(-5, 5) for _ in range(n)]
+    else:
+        b = sparse_vec(r, n)      # zero-skipping branches of the kernels: leading / trailing zeros, unit vectors
     line = f"trsv {'u' if upper else 'l'} {'u' if unit else 'n'} {'L' if left else 'R'} {oa} {n} {emit(A)} {emitv(b)}"
     return dict(op=line, kind="exact", n=n, name="trsv", cfg=f"{'u' if upper else 'l'}{'u' if unit else 'n'}{'L' if left else 'R'}{oa}",
                 singular=singular and not unit)
@@ -150,6 +185,9 @@ def gen_trsm(r, n, m):
         B = mm(X0, T)
     if r.chance(1, 5):
         B = [[r.range(-5, 5) for _ in row] for row in B]
+    elif r.chance(1, 5):
+        vs = [sparse_vec(r, n) for _ in range(m)]
+        B = tr(vs) if left else vs
     line = f"trsm {'u' if upper else 'l'} {'u' if unit else 'n'} {'L' if left else 'R'} {oa} {ob} {n} {m} {emit(A)} {emit(B)}"
     return dict(op=line, kind="exact", n=n, name="trsm", cfg=f"{'u' if upper else 'l'}{'u' if unit else 'n'}{'L' if left else 'R'}{oa}{ob}",
                 singular=singular and not unit and m > 0)
@@ -232,14 +270,22 @@ def gen_lu_matrix(r, n):
     return perm_rows(A4, rand_perm(r, n)), 2
 
 
-def gen_getrf(r, n, singular=False):
+def gen_lu_ties(r, n):
+    """A = Pi^T L U with multipliers in {0, +-1}: the pivot search meets ties (equal absolute values) in the
+    first column at least; non-singular by construction (det = prod U_ii)"""
+    L = [[1 if i == j else (r.choice([0, 1, -1]) if j < i else 0) for j in range(n)] for i in range(n)]
+    U = [[r.choice([1, -1]) * (1 << r.range(0, 3)) if i == j else (small(r, 3, 2) if j > i else 0) for j in range(n)] for i in range(n)]
+    return perm_rows(mm(L, U), rand_perm(r, n)), 0
+
+
+def gen_getrf(r, n, singular=False, ties=False):
     oa = r.choice("rc")
-    A, s = gen_lu_matrix(r, n)
+    A, s = gen_lu_ties(r, n) if ties else gen_lu_matrix(r, n)
     if singular and n > 0:
         k = r.below(n)
         for i in range(n): A[i][k] = 0
     line = f"getrf {oa} {n} {emit(A, s)}"
-    return dict(op=line, kind="exact", n=n, name="getrf", cfg=oa + ("-singular" if singular else ""))
+    return dict(op=line, kind="exact", n=n, name="getrf", cfg=oa + ("-singular" if singular else "") + ("-ties" if ties else ""))
 
 
 def pstrf_matrix(r, n, rank):
@@ -311,20 +357,85 @@ def rhs_for(r, A, sA, n, m, left, vec, exact_from=None):
     return emit(B, sA)
 
 
-def gen_solve(r, n, tag=None, tol=False):
+# ---- well-conditioned exact systems (for the lazily consumed forms r/j, which go through rows of the
+# explicit inverse and are therefore only forward stable: residual <= eps * cond)
+def wc_tri_matrix(r, n, upper, unit):
+    """triangular system with a dominant power-of-two diagonal (8..32) and at most two entries +-1 per row;
+    for unit tags the stored diagonal is garbage and the off-diagonal entries are dyadic (+-1/4)"""
+    A = [[r.range(-9, 9) for _ in range(n)] for _ in range(n)]
+    for i in range(n):
+        A[i][i] = r.range(-3, 3) if unit else r.choice([1, -1]) * (1 << r.range(3, 5))
+        cand = [j for j in range(n) if j != i and (j > i) == upper]
+        for j in cand:
+            A[i][j] = 0
+        for _ in range(min(2, len(cand))):
+            A[i][r.choice(cand)] = r.choice([1, -1])
+    return A, 0
+
+
+def wc_chol_factor(r, n):
+    L = [[0] * n for _ in range(n)]
+    for i in range(n):
+        L[i][i] = 1 << r.range(2, 4)
+        for _ in range(min(2, i)):
+            L[i][r.below(i)] = r.choice([1, -1])
+    return L
+
+
+def wc_lu_matrix(r, n):
+    """A = Pi^T L U, scale 4: L unit lower with at most two entries +-1/4 per row, U upper with diagonal
+    +-16..64 and at most two entries +-1 per row"""
+    L4 = [[4 if i == j else 0 for j in range(n)] for i in range(n)]
+    U = [[0] * n for _ in range(n)]
+    for i in range(n):
+        for _ in range(min(2, i)):
+            L4[i][r.below(i)] = r.choice([1, -1])
+        U[i][i] = r.choice([1, -1]) * (1 << r.range(4, 6))
+        for _ in range(min(2, n - 1 - i)):
+            U[i][r.range(i + 1, n - 1)] = r.choice([1, -1])
+    return perm_rows(mm(L4, U), rand_perm(r, n)), 2
+
+
+def float_tri(r, n, upper, unit, bits=8):
+    """well-conditioned dyadic triangular system (row sums of the off-diagonal part below 1/2 of the diagonal)"""
+    one = 1 << bits
+    A = [[r.range(-9 * one, 9 * one) for _ in range(n)] for _ in range(n)]
+    for i in range(n):
+        for j in range(n):
+            if i == j:
+                A[i][j] = r.range(-3 * one, 3 * one) if unit else r.choice([1, -1]) * (one + r.below(one))
+            elif (j > i) == upper:
+                A[i][j] = r.range(-one, one) // max(2, n)
+    return A, bits
+
+
+FORMS_ANY = "siabexy"        # every right-hand side kind (x, y: explicit inverse evaluated as a matrix)
+FORMS_MAT = "rjpqmn"         # lazily consumed matrix solves: matrix right-hand sides only
+FORMS_TRANS = "tcl"          # trans(solve), column(solve,k), e_i % solve: only where the transpose rewrite compiles
+TAGS = ["spd", "semi", "lu", "tl", "tu", "tul", "tuu"]
+
+
+def gen_solve(r, n, tag=None, tol=False, form=None, left=None, K=None):
     tag = tag or r.choice(["spd", "spd", "semi", "semi", "lu", "lu", "tl", "tu", "tul", "tuu"])
-    left = r.chance(1, 2)
+    left = r.chance(1, 2) if left is None else left
     oa = r.choice("rc")
-    K = r.choice(["v", "v", "r", "c"])
-    form = r.choice("si")
+    if K is None:
+        K = r.choice("rc") if (form is not None and form in FORMS_MAT + FORMS_TRANS) else r.choice(["v", "v", "r", "c"])
+    if form is None:
+        form = r.choice("ssii" + FORMS_ANY) if K == "v" else r.choice("ssii" + FORMS_ANY + FORMS_MAT + FORMS_MAT)
     m = 1 if K == "v" else r.choice([1, 2, 3, 5, 17])
+    # forms that go through rows / columns of the explicit inverse (r j x y; p q from the right: X e_k = B (A^-1 e_k))
+    # are forward stable only: generated on well-conditioned systems, where the 1e-9 residual bound is sound
+    wc = form in "rjpqxyl"
+    if wc and tag == "semi":
+        n = min(n, 24)
     s = 0
     extra = ""
     if tag == "spd":
         if tol:
             A, s = float_spd(r, n)
         else:
-            L = int_chol_factor(r, n); A = mm(L, tr(L))
+            L = wc_chol_factor(r, n) if wc else int_chol_factor(r, n); A = mm(L, tr(L))
     elif tag == "semi":
         if tol:
             rank = r.choice([n, r.range(1, n)]); A, s = float_psd(r, n, rank)
@@ -332,42 +443,192 @@ def gen_solve(r, n, tag=None, tol=False):
             rank = r.choice([n, n, r.range(0, n), max(0, n - 1)]); A = pstrf_matrix(r, n, rank)
         extra = f"-def{min(n - rank, 3)}"
     elif tag == "lu":
-        A, s = float_general(r, n) if tol else gen_lu_matrix(r, n)
+        A, s = float_general(r, n) if tol else (wc_lu_matrix(r, n) if wc else gen_lu_matrix(r, n))
     else:
         upper, unit = tag in ("tu", "tuu"), tag in ("tul", "tuu")
-        A = gen_tri_matrix(r, n, upper, unit)
+        if tol:
+            A, s = float_tri(r, n, upper, unit)
+        elif wc:
+            A, s = wc_tri_matrix(r, n, upper, unit)
+            if unit:
+                s = 2      # the implicit diagonal is 1: read all entries as quarters (off-diagonal +-1/4)
+        else:
+            A = gen_tri_matrix(r, n, upper, unit)
         T = tri_part(A, upper, unit)
+        if s and unit:
+            T = [[(1 << s) if i == j else T[i][j] for j in range(n)] for i in range(n)]
     Aeff = T if tag.startswith("t") else A
-    if tol or (tag == "semi" and rank < n) or r.chance(1, 6):
+    if r.chance(1, 12):
+        # zero right-hand side / zero columns (the solution is zero; every solver must return it, not NaN)
+        zc = [r.chance(1, 2) for _ in range(m)]
+        if K == "v" or not any(zc):
+            B = " ".join("0" for _ in range(n * m))
+        elif left:
+            B = " ".join("0" if zc[k] else str(r.range(-5, 5)) for i in range(n) for k in range(m))
+        else:
+            B = " ".join("0" if zc[k] else str(r.range(-5, 5)) for k in range(m) for i in range(n))
+    elif tol or (tag == "semi" and rank < n) or r.chance(1, 6):
         cnt = n * m
         B = " ".join(str(r.range(-5, 5)) for _ in range(cnt))
     else:
         B = rhs_for(r, Aeff, s, n, m, left, K == "v")
     line = f"solve {tag} {'L' if left else 'R'} {oa} {K} {form} {n} {m} {emit(A, s)} {B}"
-    return dict(op=line, kind="tol" if tol else "exact", n=n, name="solve",
+    return dict(op=line, kind="tol" if tol else "exact", n=n, name="solve", form=form,
                 cfg=f"{tag}{extra}:{'L' if left else 'R'}{oa}{K}{form}" + ("-float" if tol else ""))
 
 
+def gen_decomp(r, n, tol=False):
+    """one decomposition object serving several solve requests (all four side / rhs-kind combinations in random order)"""
+    cls = r.choice(["chol", "chold", "lu", "semi", "semi"] + (["eig", "eigd"] if tol else []))
+    oa = r.choice("rc")
+    s = 0
+    if cls in ("chol", "chold", "eig", "eigd"):
+        if tol:
+            A, s = float_spd(r, n)
+        else:
+            L = int_chol_factor(r, n); A = mm(L, tr(L))
+            if r.chance(1, 2):
+                A = sym_garbage(r, A, False)        # only the lower triangle may be read
+    elif cls == "lu":
+        A, s = float_general(r, n) if tol else gen_lu_matrix(r, n)
+    else:
+        if tol:
+            rank = r.choice([n, r.range(1, n)]); A, s = float_psd(r, n, rank)
+        else:
+            rank = r.choice([n, r.range(0, n), max(0, n - 1)]); A = pstrf_matrix(r, n, rank)
+    q = r.range(2, 5)
+    Asym = [[A[i][j] if j <= i else A[j][i] for j in range(n)] for i in range(n)] if cls in ("chol", "chold", "eig", "eigd") else A
+    reqs = []
+    for _ in range(q):
+        left = r.chance(1, 2); K = r.choice("vrc"); m = 1 if K == "v" else r.choice([1, 2, 3, 5])
+        if tol or cls == "semi" or r.chance(1, 5):
+            B = " ".join(str(r.range(-5, 5)) for _ in range(n * m))
+        else:
+            B = rhs_for(r, Asym, s, n, m, left, K == "v")
+        reqs.append(f"{'L' if left else 'R'} {K} {m} {B}")
+    line = f"decomp {cls} {oa} {n} {q} {emit(A, s)} {' '.join(reqs)}"
+    return dict(op=line, kind="tol" if tol else "exact", n=n, name="decomp", cfg=f"{cls}:{oa}:q{q}" + ("-float" if tol else ""))
+
+
+# ---- rank-one updates of a Cholesky factor
+V_CLASSES = ["dense", "lead0", "unit", "trail0", "inner0", "zero", "colL", "colL-singular", "indef"]
+ALPHAS_EXACT = ["1", "4", "1/4", "16", "1/16", "9/4", "9"]
+ALPHAS_TOL = ["1", "4", "1/4", "2", "3/2", "7/10", "13/10", "9/10"]
+
+
+def gen_cholseq(r, n, tol=False, vclass=None, alpha=None, k=None):
+    """cholesky_decomposition(A), k updates (alpha_t, beta_t, v_t) on the same object, then a solve.
+    Vector classes: dense; leading / trailing / interior zeros; unit vectors; the zero vector; a scaled
+    column of the factor (the update then stays exact: new factor = old with one column rescaled);
+    the same with alpha + beta t^2 = 0 (exactly singular target: must throw); a large downdate (must throw)."""
+    oa = r.choice("rc")
+    k = k or r.choice([1, 1, 2, 3, 5])
+    one = 256
+    if tol:
+        A, s = float_spd(r, n); L = None
+    else:
+        L = int_chol_factor(r, n, lim=2); A = mm(L, tr(L)); s = 0
+        if r.chance(1, 2):
+            A = sym_garbage(r, A, False)
+    ups, classes = [], []
+    for t in range(k):
+        vc = vclass if (vclass and t == 0) else r.choice(V_CLASSES[:7] * 3 + V_CLASSES[7:])
+        if tol and vc.startswith("colL"):
+            vc = "lead0"
+        if vc in ("colL-singular", "indef") and t + 1 < k:
+            vc = "lead0"           # throwing updates only as the last one
+        al = alpha if (alpha and t == 0) else r.choice(ALPHAS_TOL if tol else ALPHAS_EXACT)
+        be = r.choice(["1", "1/2", "3", "0", "-1/8", "-1/2", "5", "3/4", "2"])
+        ent = (lambda: fmt(r.range(-one, one) or 1, 8)) if tol else (lambda: str(r.choice([-3, -2, -1, 1, 2, 3])))
+        v = ["0"] * n
+        if vc == "dense":
+            v = [ent() for _ in range(n)]
+        elif vc == "lead0":
+            z = r.range(1, n - 1) if n > 1 else 0
+            v = ["0"] * z + [ent() for _ in range(n - z)]
+        elif vc == "unit":
+            i = r.below(n) if r.chance(1, 4) else r.range(min(1, n - 1), n - 1)
+            v[i] = ent()
+        elif vc == "trail0":
+            z = r.range(1, n - 1) if n > 1 else 0
+            v = [ent() for _ in range(n - z)] + ["0"] * z
+        elif vc == "inner0":
+            v = [ent() if r.chance(1, 2) else "0" for _ in range(n)]
+        elif vc == "zero":
+            pass
+        elif vc in ("colL", "colL-singular"):
+            # v = t * (column c of the CURRENT factor) is only known for the first update: use the initial factor and
+            # alpha + beta t^2 a square (resp. zero)
+            c = r.below(n)
+            if vc == "colL":
+                al, be, tt = r.choice([("1", "3", 1), ("4", "5", 1), ("1/4", "2", 1), ("1", "-3/4", 1), ("1", "2", 2), ("4", "3", 2), ("16", "9", 1)])
+            else:
+                al, be, tt = r.choice([("1", "-1", 1), ("4", "-1", 2), ("1/4", "-1/4", 1), ("1", "-1/4", 2)])
+            if t > 0:      # later updates: the current factor is not known here; fall back to leading zeros
+                v = ["0"] * (n - 1) + [ent()]
+                vc = "lead0"
+            else:
+                v = [str(tt * L[i][c]) for i in range(n)]
+        elif vc == "indef":
+            v = [ent() for _ in range(n)]
+            be = "-4096" if not tol else "-64"
+        ups.append(f"{al} {be} {' '.join(v)}")
+        classes.append(vc)
+    S = r.choice("LRN")
+    b = "" if S == "N" else " " + " ".join(str(r.range(-5, 5)) for _ in range(n))
+    line = f"cholseq {oa} {n} {k} {emit(A, s)} {' '.join(ups)} {S}{b}"
+    a1 = ups[0].split()[0]
+    return dict(op=line, kind="tol" if tol else "exact", n=n, name="cholseq",
+                cfg=f"{oa}:k{k}:{classes[0]}:a{'1' if a1 == '1' else 'x'}" + ("-float" if tol else ""), vclasses=classes)
+
+
 def gen_oracle_only(r, n):
-    """conjugate gradient, rank-one Cholesky update, symmetric eigendecomposition: residual oracle only"""
-    k = r.below(3)
+    """conjugate gradient and symmetric eigendecomposition: residual oracle only"""
+    k = r.below(2)
     oa = r.choice("rc")
     if k == 0:
         A, s = float_spd(r, n)
         left = r.chance(1, 2); K = r.choice(["v", "r", "c"]); m = 1 if K == "v" else r.choice([1, 3])
-        B = " ".join(str(r.range(-5, 5)) for _ in range(n * m))
-        return dict(op=f"solve cg {'L' if left else 'R'} {oa} {K} {r.choice('si')} {n} {m} {emit(A, s)} {B}",
-                    kind="tol", n=n, name="cg", cfg=f"{'L' if left else 'R'}{oa}{K}")
-    if k == 1:
-        A, s = float_spd(r, n)
-        alpha = r.choice(["1", "4", "1/4", "2", "3/2"])
-        beta = r.choice(["1", "1/2", "3", "0", "-1/8", "-1/2"])
-        v = " ".join(fmt(r.range(-256, 256), 8) for _ in range(n))
-        return dict(op=f"cholup {oa} {n} {alpha} {beta} {emit(A, s)} {v}", kind="tol", n=n, name="cholup", cfg=f"{oa}:a{alpha}:b{beta}")
+        form = r.choice(FORMS_ANY if K == "v" else FORMS_ANY + FORMS_MAT)
+        B = " ".join(("0" if r.chance(1, 10) else str(r.range(-5, 5))) for _ in range(n * m))
+        return dict(op=f"solve cg {'L' if left else 'R'} {oa} {K} {form} {n} {m} {emit(A, s)} {B}",
+                    kind="tol", n=n, name="cg", cfg=f"{'L' if left else 'R'}{oa}{K}{form}")
+    return gen_syev(r, n)
+
+
+def gen_syev(r, n, cls=None):
+    """symmetric eigendecomposition; classes: dense; repeated eigenvalues (block-diagonal copies); diagonal;
+    zero matrix; identity multiple; rank one; tridiagonal"""
+    oa = r.choice("rc")
     one = 256
-    M = [[r.range(-one, one) for _ in range(n)] for _ in range(n)]
-    A = [[M[i][j] + M[j][i] for j in range(n)] for i in range(n)]
-    return dict(op=f"syev {oa} {n} {emit(A, 8)}", kind="tol", n=n, name="syev", cfg=oa)
+    cls = cls or r.choice(["dense", "dense", "repeated", "diagonal", "zero", "identity", "rank1", "tridiagonal"])
+    A = [[0] * n for _ in range(n)]
+    if cls == "dense":
+        M = [[r.range(-one, one) for _ in range(n)] for _ in range(n)]
+        A = [[M[i][j] + M[j][i] for j in range(n)] for i in range(n)]
+    elif cls == "repeated":
+        h = max(1, n // 2)
+        M = [[r.range(-one, one) for _ in range(h)] for _ in range(h)]
+        for i in range(n):
+            for j in range(n):
+                if i // h == j // h and i // h < 2:
+                    A[i][j] = M[i % h][j % h] + M[j % h][i % h]
+    elif cls == "diagonal":
+        for i in range(n):
+            A[i][i] = r.choice([0, one, -one, 2 * one, r.range(-one, one)])
+    elif cls == "identity":
+        c = r.choice([one, -3 * one, one // 2])
+        for i in range(n):
+            A[i][i] = c
+    elif cls == "rank1":
+        u = [r.range(-16, 16) for _ in range(n)]
+        A = [[u[i] * u[j] for j in range(n)] for i in range(n)]
+    elif cls == "tridiagonal":
+        for i in range(n):
+            A[i][i] = r.range(-one, one)
+            if i + 1 < n:
+                A[i][i + 1] = A[i + 1][i] = r.range(-one, one)
+    return dict(op=f"syev {oa} {n} {emit(A, 8)}", kind="tol", n=n, name="syev", cfg=f"{oa}:{cls}")
 
 
 def load_corpus():
@@ -411,6 +672,8 @@ def gen_cases(ctx):
             cases.append(gen_potrf_float(r, n))
     for n in sizes(ctx, r, 8 if q else 0):
         cases.append(gen_getrf(r, n, singular=r.chance(1, 15)))
+    for n in ([2, 3, 4, 5, 7, 9, 12] if q else list(range(2, 13)) * 3):
+        cases.append(gen_getrf(r, n, ties=True))
     for n in sizes(ctx, r, 8 if q else 0):
         cases.append(gen_pstrf(r, n))
         if not q:
@@ -426,10 +689,46 @@ def gen_cases(ctx):
             cases.append(gen_pstrf(r, n, rank=rank))
     for n in sizes(ctx, r, 25 if q else 0) * (1 if q else 3):
         cases.append(gen_solve(r, n))
+    # every form of writing / consuming the solve expression x every system tag x both sides, on every run
+    tforms = FORMS_TRANS if trans_forms_available(ctx) else ""
+    ctx.cov["transposed_solve_forms"] = (f"exercised (t c l), probe level {trans_forms_level(ctx)}" if tforms
+                                         else "not instantiable in this tree (compile probe): not exercised")
+    for form in FORMS_ANY + FORMS_MAT + tforms:
+        for tag in TAGS:
+            for left in (True, False):
+                n = r.choice([2, 3, 4, 5, 6, 7, 9, 12])
+                cases.append(gen_solve(r, n, tag=tag, form=form, left=left))
+                if not q:
+                    cases.append(gen_solve(r, r.choice(BOUNDARY[5:]), tag=tag, form=form, left=left))
+                    cases.append(gen_solve(r, r.range(2, 40), tag=tag, form=form, left=left, tol=True))
+        if q:
+            for tag in TAGS:
+                cases.append(gen_solve(r, r.range(2, 24), tag=tag, form=form, tol=True))
     for n in sizes(ctx, r, 6 if q else 0):
         if n <= 40:
-            cases.append(gen_solve(r, n, tag=r.choice(["spd", "lu", "semi"]), tol=True))
+            cases.append(gen_solve(r, n, tag=r.choice(TAGS), tol=True))
             cases.append(gen_oracle_only(r, n))
+    # symmetric eigendecomposition: every matrix class
+    for cls in ["dense", "repeated", "diagonal", "zero", "identity", "rank1", "tridiagonal"]:
+        for n in ([1, 2, r.range(3, 12)] if q else [1, 2, 3, 5, 8, 13, 21, 34]):
+            cases.append(gen_syev(r, n, cls))
+    # decomposition objects serving several requests
+    for n in sizes(ctx, r, 4 if q else 0):
+        cases.append(gen_decomp(r, n))
+        if n <= 40:
+            cases.append(gen_decomp(r, n, tol=True))
+    # rank-one updates: every vector class x (alpha = 1 / alpha != 1), exact and float, on every run; then sequences
+    for vc in V_CLASSES:
+        for alpha in (["1", "4", "1/4"] if q else ALPHAS_EXACT):
+            for n in ([r.choice([2, 3, 4, 5]), r.range(6, 12)] if q else [2, 3, 5, 8, 17, 33]):
+                cases.append(gen_cholseq(r, n, vclass=vc, alpha=alpha, k=1))
+        for alpha in (["1", "7/10"] if q else ALPHAS_TOL):
+            for n in ([r.choice([2, 3, 4, 5]), r.range(6, 24)] if q else [2, 3, 5, 8, 17, 33]):
+                cases.append(gen_cholseq(r, n, tol=True, vclass=vc, alpha=alpha, k=1))
+    for n in sizes(ctx, r, 5 if q else 0):
+        if n <= 40:
+            cases.append(gen_cholseq(r, n))
+            cases.append(gen_cholseq(r, n, tol=True))
     return cases
 
 
@@ -583,14 +882,80 @@ def classify_key(c, st, detail, impl_line, blas):
         return "C02-pstrf-zero-matrix"
     if t[0] == "solve" and t[1] == "semi" and all(x == "0" for x in t[8:8 + int(t[6]) ** 2]):
         return "C02-pstrf-zero-matrix"
+    if t[0] == "solve" and t[1] == "cg" and "nan" in impl_line and cg_zero_rhs(t):
+        return "C02-cg-zero-rhs-nan"
     return f"{st.lower()}:{c['name']}:{c['cfg']}" + (":cblas" if blas else "")
+
+
+def cg_zero_rhs(t):
+    """the listed defect C02-cg-zero-rhs-nan only: a cg solve that hands an exactly zero vector to the vector version of
+    cg_solver::cg -- a zero vector right-hand side, or (forms p/q, left: solve(A, B e_k)) a zero column of B"""
+    try:
+        left, K, form, n, m = t[2] == "L", t[4], t[5], int(t[6]), int(t[7])
+        rhs = t[8 + n * n:]
+        zero = lambda x: Fraction(x) == 0
+        if K == "v":
+            return all(zero(x) for x in rhs[:n])
+        if form in "pq" and left:
+            return any(all(zero(rhs[i * m + k]) for i in range(n)) for k in range(m))
+    except (ValueError, IndexError, ZeroDivisionError):
+        pass
+    return False
+
+
+TRANS_PROBE = """#include <shark/LinAlg/BLAS/remora.hpp>
+using namespace remora;
+void c02_probe(matrix<double> const& A, MATB const& B, vector<double> const& v){
+	matrix<double> X = trans(solve(A, B, lower(), left()));
+	matrix<double> Y = trans(solve(A, B, indefinite_full_rank(), right()));
+	auto const e = solve(A, B, symm_pos_def(), left());
+	vector<double> c = column(e, 0);
+	vector<double> r = v % solve(A, B, symm_semi_pos_def(), left());
+	vector<double> q = v % solve(A, B, conjugate_gradient(), right());
+}
+"""
+
+
+def trans_forms_level(ctx):
+    """does `trans(solve(A,B,tag,side))` (and with it column(.,k), v % .) instantiate in this tree?  In the pinned tree
+    matrix_transpose_optimizer<matrix_matrix_solve<..>> names a member no tag has.  A syntax-only compile of a 10-line
+    probe decides (cached by the hash of the headers involved): 0 = no; 1 = only for A and B of the same type (a
+    specialisation that builds both sub-optimisers from one operand type); 2 = for operands of different orientation too."""
+    import subprocess
+    inc = os.path.join(core.REPO, "include")
+    hdr = "".join(core.file_sha(os.path.join(inc, "shark/LinAlg/BLAS", f)) for f in
+                  ("solve.hpp", "decompositions.hpp", "detail/structure.hpp", "proxy_expressions.hpp", "detail/expression_optimizers.hpp"))
+    key = core.sha(hdr + TRANS_PROBE)[:16]
+    d = os.path.join(core.CACHE, "c02probe"); os.makedirs(d, exist_ok=True)
+    res = os.path.join(d, key + ".level")
+    if os.path.exists(res):
+        return int(open(res).read().strip())
+    level = 0
+    for lv, matb in ((1, "matrix<double>"), (2, "matrix<double,column_major>")):
+        src = os.path.join(d, f"{key}-{lv}.cpp")
+        with open(src, "w") as f:
+            f.write(TRANS_PROBE)
+        p = subprocess.run(["g++", "-std=c++11", "-DNDEBUG", "-w", "-fsyntax-only", "-DMATB=" + matb, "-I" + inc, src],
+                           stdout=subprocess.PIPE, stderr=subprocess.STDOUT, text=True)
+        if p.returncode != 0:
+            break
+        level = lv
+    with open(res, "w") as f:
+        f.write(str(level))
+    return level
+
+
+def trans_forms_available(ctx):
+    return trans_forms_level(ctx) > 0
 
 
 def build(ctx):
     from concurrent.futures import ThreadPoolExecutor
+    lv = trans_forms_level(ctx)
+    extra = [f"-DC02_TRANS_FORMS={lv}"] if lv else []
     with ThreadPoolExecutor(max_workers=2) as ex:
-        fa = ex.submit(ctx.harness, "c02", ["c02.cpp"])
-        fb = ex.submit(ctx.harness, "c02blas", ["c02.cpp"], ["-DC02_USE_SHARK_H"])
+        fa = ex.submit(ctx.harness, "c02", ["c02.cpp"], extra)
+        fb = ex.submit(ctx.harness, "c02blas", ["c02.cpp"], ["-DC02_USE_SHARK_H"] + extra)
         return fa.result(), fb.result()
 
 
